@@ -19,7 +19,7 @@ from .. import env
 from ..orch import h
 
 ID = "C18"
-TECHNIQUE = 'runtime monitoring - sliding-window reference model against every is_limited decision: exhaustive arrival sequences per rule set, long random sequences, state-growth measurements, integration through web.start_client (consultations, effects of refusals)'
+TECHNIQUE = 'runtime monitoring - sliding-window reference model against every is_limited decision: exhaustive arrival sequences per rule set, long random sequences, state-growth measurements, integration through web.start_client (consultations, effects of refusals); end-to-end shard: the limiter on the real accept and command path of a running server (real clock; bursts well inside one interval, so only verdicts that timing cannot fake: more than n admitted, fewer than n admitted)'
 LEVEL = "exploration"
 EXHAUSTIVE = {"quick": True, "thorough": True}
 RULE = (
@@ -31,11 +31,12 @@ RULE = (
     "distinct (rule set, decision-relevant prefix)."
 )
 ASSUMPTIONS = [
+    "end-to-end shards: a real gunicorn/uvicorn server process tree started from the tree under test (vf/e2e_launch.py: the repository's run_with_gunicorn / run_with_uvicorn; the SQL schema is made with the repository's metadata.create_all because its alembic env.py does not run with the installed SQLAlchemy; the notifier's fixed TCP port 6000 is replaced by a free port), spoken to over loopback TCP with the websockets client; real time, real sleeps",
     "the virtual clock replaces perf_counter in nostr_relay.rate_limiter; the limiter is otherwise the real object",
     "a window is (t - interval, t]: two messages exactly one interval apart are not in the same window",
 ]
 MIN_NONTRIVIAL = {"quick": 2000, "thorough": 20000}
-REQUIRED_COUNTERS = ["decisions", "refusals", "growth_runs", "growth_runs_exempt", "integration.commands", "integration.refused_closes", "integration.auth_commands", "large_n_runs"]
+REQUIRED_COUNTERS = ["e2e.e2e_accept_decisions", "e2e.e2e_command_decisions", "decisions", "refusals", "growth_runs", "growth_runs_exempt", "integration.commands", "integration.refused_closes", "integration.auth_commands", "large_n_runs"]
 SHARD_TIMEOUT = {"quick": 500, "thorough": 3000}
 
 A1, A2, AS4, AS6 = "10.0.0.1", "10.0.0.2", "10.9.9.9", "2001:db8::1"
@@ -209,6 +210,15 @@ def alphabet(rsi):
 
 
 def plan(tier, seed):
+    return _plan(tier, seed) + e2e_plan(tier, seed)
+
+
+def e2e_plan(tier, seed):
+    """shards on a REAL server process tree (vf/e2e.py)"""
+    return [{"mode": "e2e", "e2e": "c18", "backend": b, "seed": seed} for b in (("sql",) if tier == "quick" else ("sql", "lmdb"))]
+
+
+def _plan(tier, seed):
     shards = []
     for rsi in range(len(RULESETS)):
         if tier == "quick":
@@ -513,6 +523,10 @@ def run_integration(spec, counters, viols, nontrivial):
 
 
 def run_shard(spec):
+    if spec.get("mode") == "e2e":
+        from .. import e2e_cases
+
+        return e2e_cases.run_e2e_shard(ID, spec)
     counters, viols, nontrivial = {}, [], []
     if spec["mode"] == "enum":
         n = run_enum(spec, counters, viols, nontrivial)
@@ -542,6 +556,10 @@ def run_shard(spec):
 
 
 def replay(rp, spec):
+    if rp.get("mode") == "e2e":
+        from .. import e2e_cases
+
+        return e2e_cases.run_e2e_shard(ID, rp)
     counters, viols, nontrivial = {}, [], []
     if rp.get("mode") == "growth":
         run_growth({}, counters, viols, nontrivial)
